@@ -38,7 +38,7 @@ def s1_fetch_versions(src, shape):
     used = sorted({a["req"].get("version") for a in res["cluster"].arrivals if a["req"]["api"] == "Fetch"})
     src.note({"shape": shape, "fetch_versions_used": used, "trace": res.get("trace")})
     src.check("deadlock" not in res, "consumer run did not finish in bounded virtual time: " + str(res.get("deadlock")))
-    src.check(used == [cap] or src.twin, f"the consumer did not use Fetch v{cap} against a broker whose highest version is {cap}", used=used)
+    src.check(all(v == cap for v in used) or src.twin, f"the consumer used Fetch {used} against a broker whose highest version is {cap}", used=used)
 
 
 def s2_reset_to_latest(src):
